@@ -764,7 +764,59 @@ class Gen:
         return {"k": "config", "contraction": bool(self.p(0.5))}
 
     # ------------------------------------------------------------------ main
-    def _maybe_reuse(self, st):
+    @staticmethod
+    def _opsize(o):
+        try:
+            return int(o["operator"]["shape"][0])
+        except Exception:  # noqa: BLE001
+            return None
+
+    def refused_request(self, v, j, o):
+        """a request that must be REFUSED, made with the operation object number j of this program (which an earlier
+        step applied): the wrong kind of subsystem, a destroyed subsystem, a fixed-size custom Fock operator on a
+        space holding more photons than it has levels, the same operand twice.  Being refused must not change what
+        the object does when it is re-used afterwards (C15); the request itself is a C17 matter."""
+        w, sn, lv = v["w"], v["sn"], v["live"]
+        fam = o["fam"]
+        want = {"fock": "F", "pol": "P", "custom": "X"}.get(fam)
+        cands = []
+        if fam in ("fock", "pol", "custom"):
+            for t in lv:
+                if w.kind(t) != want:
+                    cands.append(("wrong-kind", [t]))
+            for t in sn.order:
+                if sn.subs[t]["measured"] and w.kind(t) == want:
+                    cands.append(("destroyed", [t]))
+            if fam == "fock" and o["type"] == "Custom":
+                k = self._opsize(o)
+                for t in lv:
+                    if w.kind(t) == "F":
+                        nm, _ = self.support(v, t)
+                        if nm is not None and k is not None and nm >= k:
+                            cands += [("too-small-operator", [t])] * 3
+        elif fam == "comp" and o["type"] != "Expression" and o["type"] != "NonPolarizingBeamSplitter":
+            for t in lv:
+                if w.kind(t) == "P" and v["member_of"].get(t) is not None:
+                    cands.append(("duplicate-operands", [t, t] if o["type"] != "CSwapPolarization" else [t, t, t]))
+        if not cands:
+            return None
+        why, tg = cands[int(self.rng.integers(0, len(cands)))]
+        if why == "destroyed":
+            via = {"via": "state"}
+        elif fam == "comp":
+            hs = v["handles"].get(v["member_of"].get(tg[0]), [])
+            if not hs:
+                return None
+            via = {"via": "ce", "ce": self.ch(hs)}
+        else:
+            via = self.pick_via(v, tg[:1], "env" if why == "too-small-operator" else None)
+            if via is None or (w.kind(tg[0]) == "X" and via["via"] == "env"):
+                return None
+        st = {"k": "apply", "op": o, "op_id": j, "targets": tg, "fault": "refused-reuse", "why": why}
+        st.update(via)
+        return st
+
+    def _maybe_reuse(self, st, v=None):
         """An Operation is a reusable description: with some probability apply an operation object that an earlier
         step of this program already used (same description, other targets of the same kinds, e.g. Focks of other
         dimensions) instead of a fresh one. Runner caches the object under op_id."""
@@ -780,9 +832,21 @@ class Gen:
                     and o["state_types"] == sp["state_types"]]
         elif sp["fam"] == "comp" and sp["type"] != "Expression":
             fits = [(j, o) for j, o in enumerate(seen) if o["fam"] == "comp" and o["type"] == sp["type"]]
-        elif sp["fam"] == "custom":
+        elif sp["fam"] == "custom" and sp["type"] == "Expresion":
             # dimension-adaptive expressions fit custom states of any size
             fits = [(j, o) for j, o in enumerate(seen) if o["fam"] == "custom" and o.get("adaptive")]
+        elif sp["type"] == "Custom" and v is not None and self.opts.get("reuse_custom") and not sp.get("nonunitary"):
+            # a fixed-size custom operator fits every target it is big enough for (never an implicit shrink)
+            t = st["targets"][0]
+            d = v["dims"].get(t)
+            if sp["fam"] == "fock":
+                nm, _ = self.support(v, t)
+                need = max((nm if nm is not None else 10**6) + 1, d or 0, 2)
+                fits = [(j, o) for j, o in enumerate(seen) if o["fam"] == "fock" and o["type"] == "Custom" and not o.get("nonunitary")
+                        and (self._opsize(o) or 0) >= need and (self._opsize(o) or 0) <= need + 2]
+            else:
+                fits = [(j, o) for j, o in enumerate(seen) if o["fam"] == sp["fam"] and o["type"] == "Custom" and not o.get("nonunitary")
+                        and self._opsize(o) == d]
         else:
             fits = []
         if fits and self.rng.random() < self.opts.get("op_reuse", 0.25) * 2:
@@ -919,6 +983,15 @@ class Gen:
             self.prefix = self.lifecycle_prefix(v)
         if getattr(self, "prefix", None):
             return self.prefix.pop(0)
+        if getattr(self, "pending_refusal", None) is not None:
+            j, o = self.pending_refusal
+            self.pending_refusal = None
+            try:
+                st = self.refused_request(v, j, o)
+            except Malformed:
+                st = None
+            if st:
+                return st
         if not v["w"].ces and self.p(self.opts.get("p_early_composite", 0.6)) and len(runner.records) < 2:
             st = self.step_composite(v)
             if st:
@@ -941,7 +1014,9 @@ class Gen:
                 st = None
             if st:
                 if st["k"] == "apply" and self.opts.get("op_reuse", 0.25) and "op_id" not in st:
-                    self._maybe_reuse(st)
+                    self._maybe_reuse(st, v)
+                    if st.get("op_id") is not None and self.p(self.opts.get("refuse_reuse", 0.0)):
+                        self.pending_refusal = (st["op_id"], st["op"])
                 if getattr(self, "sticky_focus", 0) > 0:
                     self.sticky_focus -= 1
                     return st
